@@ -28,6 +28,11 @@ def gen_T19():
     names = [ast.unparse(n.comparators[0]) for n in ast.walk(enq) if isinstance(n, ast.Compare)
              and ast.unparse(n.left) == 'msg.command' and isinstance(n.ops[0], ast.In)]
     need(names == ['_high', '_low'], 'IrcMsgQueue.enqueue: expected tests msg.command in _high, then in _low; got %r' % names)
+    # the settings are read from the registry when the call runs (never from a copy cached on the object)
+    need(any(isinstance(n, ast.Assign) and ast.unparse(n) == 'limit = conf.supybot.protocols.irc.queuing.rateLimit.join()' for n in ast.walk(deq)),
+         'IrcMsgQueue.dequeue: does not read  conf.supybot.protocols.irc.queuing.rateLimit.join()  at call time')
+    need(any(isinstance(n, ast.If) and 'conf.supybot.protocols.irc.queuing.duplicates()' in ast.unparse(n.test) for n in ast.walk(enq)),
+         'IrcMsgQueue.enqueue: does not read  conf.supybot.protocols.irc.queuing.duplicates()  at call time')
     # Irc.die(): the only test that lets die() close the driver at once is  not self.afterConnect  (pinned exactly)
     die = find_def(t, 'die', 'Irc')
     ifs = [n for n in ast.walk(die) if isinstance(n, ast.If)]
